@@ -373,6 +373,7 @@ struct ForkCfg
     bool nofork = false;
     std::string errdir;         // where children's stderr is captured
     std::string family;         // used in keys
+    bool stop_on_hang = true;   // after a confirmed hang the rest of this family in this shard is skipped (reported as a counter)
 };
 
 // Run cases [0,n) of one family.  body(i, rep) executes case i and reports into rep.
@@ -477,6 +478,11 @@ static inline void run_forked(Report &rep, uint64_t n, const ForkCfg &cfg,
             {
                 rep.violation(keyfn(bad) + ":hang", J().str("family", cfg.family).u("index", bad).raw("case", d.empty() ? "{}" : d).str("what", "case exceeded the watchdog twice, second time alone in a fresh process").done());
                 pos = badpos + 1;
+                if (cfg.stop_on_hang)
+                {
+                    rep.cls("watchdog:cases_skipped_after_confirmed_hang", todo.size() - pos);
+                    pos = todo.size();
+                }
             }
             else
             {
